@@ -49,6 +49,7 @@ RETURN_LIMIT_S = 15      # harness watchdog: wall seconds without return after p
 QA = ((0.1, 0.1), (0.9, 0.9))          # first query
 QB = ((0.13, 0.87), (0.91, 0.12))      # a different query (all four points distinctive)
 QSWAP = (QA[1], QA[0])
+QH = ((0.25, 0.5), (0.75, 0.5))        # axis-aligned, all coordinates dyadic: the straight path's cost EQUALS the heuristic bit for bit
 QINV = ((0.33, 0.3), (0.9, 0.9))       # start inside the wall
 THR = 0.05
 CAP = 3000                             # probe budget (evaluations) when looking for the first solution
@@ -1031,6 +1032,8 @@ def expand_corpus_op(o):
     t = o.split()
     if t[0] in ("setpd", "setsg", "mutpd") and len(t) == 2 and t[1] in names:
         return q(t[0], names[t[1]])
+    if t[0] == "setpd" and len(t) == 2 and t[1] == "QHX":
+        return qx("setpd", QH, 2.220446049250313e-16)
     if t[0] == "setpd" and len(t) == 2 and t[1] == "QAX":
         return qx("setpd", QA, 2.220446049250313e-16)
     if t[0] == "setpdg" and len(t) == 2 and t[1] == "QG2":
